@@ -25,6 +25,6 @@ For each change create a directory {wt}/seeded_out/<short-name>/ containing:
  - patch.diff : `git diff` of the change against the pristine tree (must apply with `git apply` to a clean checkout)
  - demo.py : a small standalone program (run as `PYTHONPATH=<tree> /venv/bin/python demo.py`) that exits 0 on the pristine tree and exits non-zero (with a clear message) on the changed tree, demonstrating the property violation through the package's public behaviour
  - notes.md : what the change is, why it breaks {p['id']}, what specific input/sequence/configuration is needed to manifest, and the result of the full test suite with the change applied (pass count).
-IMPORTANT: the demo must pass (exit 0) on the pristine tree - check this first and design the demo around behaviour that is correct on the pristine tree. After writing each patch, reset the worktree (`git -C {wt} checkout -- .`) before making the next one, and at the end leave the worktree clean (only the untracked seeded_out/ directory). Verify each yourself: apply patch to clean tree -> tests pass, demo fails; revert -> demo passes.
+IMPORTANT: the demo must pass (exit 0) on the pristine tree - check this first and design the demo around behaviour that is correct on the pristine tree. After writing each patch, reset the worktree (`git -C {wt} checkout -- .`) before making the next one, and at the end leave the worktree clean (only the untracked seeded_out/ directory). Verify each yourself: apply patch to clean tree -> tests pass, demo fails; revert -> demo passes. Do NOT use `git stash` (the stash is shared with other worktrees of the same repository); use `git diff > patch.diff`, `git checkout -- .`, `git apply` / `git apply -R` instead.
 
 Report back a short summary: for each change its directory name, a one-line description, and the confirmation results.""")
